@@ -334,8 +334,8 @@ class Prover:
                 return None
             if op == "Add":
                 return a.add(b)
-            if op == "Sub" and b.is_const():
-                return a.add(Lin(-b.c))
+            if op == "Sub":
+                return a.sub(b)       # value of a - b whenever the subtraction does not overflow (its own assert is a separate site)
             if op == "Mul":
                 if a.is_const():
                     return b.scale(a.c)
@@ -658,7 +658,7 @@ class Prover:
             if d.kind == "call":
                 c = d.call
                 p = c.callee_path
-                if re.search(r"slice::index::<impl std::ops::Index(Mut)?<.*> for \[.*\]>::index(_mut)?$", p):
+                if re.search(r"slice::index::<impl std::ops::Index(Mut)?<.*> for \[.*\]>::index(_mut)?$|^<std::vec::Vec<.*> as std::ops::Index(Mut)?<.*>>::index(_mut)?$", p):
                     rng = self.range_of(c.args[1])
                     if rng is not None:
                         kind, a, b = rng
@@ -764,6 +764,7 @@ class Prover:
                         # tail position: `check(..)` returned directly or via `?` we could not follow
                         pass
             out.extend(self.contract_facts())
+            out.extend(self.compare_facts())
             # a fact about a sub-slice s = &root[k..] is also a fact about root: len(root) >= k + n
             extra = []
             for (okb, sop, n, cb) in out:
@@ -815,6 +816,79 @@ class Prover:
                 return None
             return None
         return None
+
+    def _len_source(self, op):
+        """if the operand is the length of a slice / Vec / str: the reference operand it was taken from"""
+        if op["k"] == "const" or op["place"]["p"]:
+            return None
+        d = self.q.single_def(op["place"]["l"])
+        if d is None:
+            return None
+        if d.kind == "call" and re.search(r"slice::<impl \[.*\]>::len$|Vec::<.*>::len$|str::<impl str>::len$|String::len$", d.call.callee_path):
+            return d.call.args[0]
+        if d.kind == "assign" and d.rv["k"] == "unop" and d.rv["op"] == "PtrMetadata":
+            return d.rv["a"]
+        if d.kind == "assign" and d.rv["k"] == "use" and d.rv["op"]["k"] != "const":
+            return self._len_source(d.rv["op"])
+        return None
+
+    def compare_facts(self):
+        """len(s) >= e on the edge of a branch that compares len(s) with e"""
+        out = []
+        for bi, blk in enumerate(self.body.blocks):
+            if blk["cleanup"]:
+                continue
+            t = blk["term"]
+            if t["k"] != "switch" or len(t["targets"]) != 1 or int(t["targets"][0][0]) != 0:
+                continue
+            false_t, true_t = t["targets"][0][1], t["otherwise"]
+            dop = t["discr"]
+            if dop["k"] == "const" or dop["place"]["p"]:
+                continue
+            d = self.q.single_def(dop["place"]["l"])
+            neg = False
+            guard = 0
+            while d is not None and d.kind == "assign" and guard < 4:
+                guard += 1
+                if d.rv["k"] == "unop" and d.rv["op"] == "Not" and d.rv["a"]["k"] != "const" and not d.rv["a"]["place"]["p"]:
+                    neg = not neg
+                    d = self.q.single_def(d.rv["a"]["place"]["l"])
+                    continue
+                if d.rv["k"] == "use" and d.rv["op"]["k"] != "const" and not d.rv["op"]["place"]["p"]:
+                    d = self.q.single_def(d.rv["op"]["place"]["l"])
+                    continue
+                break
+            if d is None or d.kind != "assign" or d.rv["k"] != "binop" or d.rv["op"] not in ("Ge", "Gt", "Le", "Lt", "Eq"):
+                continue
+            if neg:
+                false_t, true_t = true_t, false_t
+            op = d.rv["op"]
+            a, b = d.rv["a"], d.rv["b"]
+            sa, sb = self._len_source(a), self._len_source(b)
+            self.at = (d.block, self._idx(d))
+            try:
+                if sa is not None and sb is None:
+                    e = self.lin_op(b)
+                    src = sa
+                    # len OP e
+                    table = {"Ge": (true_t, 0), "Gt": (true_t, 1), "Lt": (false_t, 0), "Le": (false_t, 1), "Eq": (true_t, 0)}
+                elif sb is not None and sa is None:
+                    e = self.lin_op(a)
+                    src = sb
+                    # e OP len
+                    table = {"Le": (true_t, 0), "Lt": (true_t, 1), "Gt": (false_t, 0), "Ge": (false_t, 1), "Eq": (true_t, 0)}
+                else:
+                    continue
+            finally:
+                self.at = None
+            if e is None:
+                continue
+            tgt, plus = table[op]
+            # the fact holds in blocks dominated by the edge target only if that target has no other predecessor
+            if len(set(self.cfg.pred[tgt])) != 1:
+                continue
+            out.append((tgt, src, e.add(Lin(plus)) if plus else e, bi))
+        return out
 
     def contract_facts(self):
         out = []
